@@ -784,6 +784,39 @@ def t16(ctx, rid):
     c09.p10(ctx, rid)
 
 
+def t17(ctx, rid):
+    """`keeps accepting writes` across a switch of the active blob: the worker exchanges the active blob in one exclusive section
+    (Safe::replace_active_blob).  No worker body first closes the active blob and then creates a new one - between the two lock
+    sections there is no active blob (the close fsyncs under the lock, the window is wide) and concurrent writers that already
+    passed their check fail with ActiveBlobNotSet"""
+    prog = ctx.prog
+    n = 0
+    bad = None
+    for f in prog.fns.values():
+        if not f.file.endswith('observer_worker.rs'):
+            continue
+        n += 1
+        closes = [c for c in f.calls if c.bb in f.reachable() and any(t.endswith('Inner::<K>::close_active_blob') for t in prog.resolve(c))]
+        creates = [c for c in f.calls if c.bb in f.reachable() and any(t.endswith('Inner::<K>::create_active_blob') or t.endswith('::ensure_active_blob_exists') for t in prog.resolve(c))]
+        for c in closes:
+            after = f.reach_from(f.after(c.bb))
+            for k in creates:
+                if k.bb in after:
+                    bad = (c, k)
+    if n < 10:
+        raise core.AnchorLost('functions in the worker module: %d' % n)
+    if bad:
+        ctx.bad(rid, 'switch-is-one-exclusive-section', bad[0].where(), 'a worker body closes the active blob and then creates a new one in a second lock section (`%s` .. `%s`): in between the storage has no active blob and concurrent writes are rejected' % (bad[0].name, bad[1].name))
+    else:
+        ctx.ok(rid, 'switch-is-one-exclusive-section', '', 'no close-then-create sequence in %d worker functions' % n, nontrivial=False, queries=n)
+
+
+def t18(ctx, rid):
+    """C15.A13 instance: the allocation counter of a reloaded index is seeded from the capacities of the per-key vectors"""
+    import props.c15 as c15
+    c15.a13(ctx, rid)
+
+
 RULES = [
     Rule('C04.T1', 'every value stored into the active-blob slot is certified to have an in-memory index (open_new, load_index ok, or popped after load_index ok on the last element)', t1, 7),
     Rule('C04.T2', 'every index push is dominated by an InMemory-establishing event, in the body or in every caller, or acts on the active-blob slot', t2, 3),
@@ -800,5 +833,7 @@ RULES = [
     Rule('C04.T14', 'the active blob is counted as a source of the cross-blob merge; the serializer layer passes agree (C02.U14 / C09.P7 instances)', t14, 3),
     Rule('C04.T15', 'an index file is built into an emptied or absent file (IoDriver::create does not truncate)', t15, 1),
     Rule('C04.T16', 'a completely filled non-leaf node fits into one block for every key length (C09.P10 instance)', t16, 1),
+    Rule('C04.T17', 'the worker switches the active blob in one exclusive section (no close-then-create)', t17, 1),
+    Rule('C04.T18', 'the allocation counter of a reloaded index is seeded from vector capacities (C15.A13 instance)', t18, 1),
     Rule('C04.T6', 'the closed-blob vector (child ids are positions) is never shrunk', t6, 4),
 ]
